@@ -172,17 +172,40 @@ def _import_filter_folder_rule(ctx, res) -> None:
     imports are being organised -- the resource the organised pymodule was built for -- not of some other module at hand."""
     idx = ctx.idx
     n = 0
+    seen_sites = set()
     for f in sorted(idx.functions.values(), key=lambda f: f.qualname):
         if f.unit.modname != "rope.refactor.move":
             continue
-        for c in calls_in(f.node):
+        # (a step that only forwards its parameters -- `_without_stale_imports(pymodule, folder)` -- is read in place at its callers)
+        f_params = set(param_names(f.node))
+        called_here = f.name.startswith("_") and any(call_name(c2) == f.name for g in idx.functions.values() if g.unit is f.unit and g is not f for c2 in calls_in(g.node))
+        f_node = common.inlined(idx, f)
+        for c in calls_in(f_node):
             if call_name(c) != "organize_imports" or not c.args:
                 continue
             flt = next((k.value for k in c.keywords if k.arg == "import_filter"), None)
-            if not (isinstance(flt, ast.Call) and call_name(flt) == "_import_filter_in" and flt.args):
+            folder = None
+            if isinstance(flt, ast.Call) and call_name(flt) == "_import_filter_in" and flt.args:
+                folder = flt.args[0]
+            elif isinstance(flt, ast.Lambda):
+                # the same filter written out: `lambda stmt: self._import_filter(stmt, folder)`
+                inner = [x for x in ast.walk(flt.body) if isinstance(x, ast.Call) and call_name(x) == "_import_filter"]
+                if inner:
+                    folder = inner[0].args[1] if len(inner[0].args) > 1 else next((k.value for k in inner[0].keywords if k.arg == "folder"), None)
+            if folder is None:
                 continue
+            if isinstance(folder, ast.Name):
+                # the binding of the local that stands nearest above the use (`folder = file_.parent` ... `lambda stmt: ...(stmt, folder)`)
+                defs = sorted((a_ for a_ in walk_local(f_node) if isinstance(a_, ast.Assign) and a_.lineno <= flt.lineno
+                               and any(isinstance(t, ast.Name) and t.id == folder.id for t in a_.targets)), key=lambda a_: a_.lineno)
+                if defs:
+                    folder = defs[-1].value
+            if called_here and isinstance(folder, ast.Name) and folder.id in f_params:
+                continue
+            if (c.lineno, c.col_offset) in seen_sites:
+                continue  # the same call read in place in a caller
+            seen_sites.add((c.lineno, c.col_offset))
             n += 1
-            folder = flt.args[0]
             subject = folder.value if isinstance(folder, ast.Attribute) and folder.attr == "parent" else None
 
             def resources_of(e, depth=0, before=c.lineno):
@@ -200,7 +223,7 @@ def _import_filter_folder_rule(ctx, res) -> None:
                     return set()
                 if isinstance(e, ast.Name):
                     out = set()
-                    for x in walk_local(f.node):
+                    for x in walk_local(f_node):
                         if isinstance(x, ast.Assign) and x.lineno < before and any(isinstance(t, ast.Name) and t.id == e.id for t in x.targets):
                             out |= resources_of(x.value, depth + 1, x.lineno)
                     return out
